@@ -101,7 +101,9 @@ def binding_menu(out, expr, layouts, loop_ranks, quick):
         fn = format_name(layouts, out, t)
         cand = [(lay[-1], ["coord", "payload"])] + ([(lay[0], ["payload"])] if len(lay) > 1 and not quick else [])
         for rank, types in cand:
-            evicts = ["root"] + [r for r in loop_ranks if r != rank and loop_ranks.index(r) < max(0, len(loop_ranks) - 1)]
+            # evict-on names a loop that encloses the loaded rank (or root)
+            pos = loop_ranks.index(rank) if rank in loop_ranks else len(loop_ranks)
+            evicts = ["root"] + [r for r in loop_ranks[:pos]]
             for ev in evicts[: (3 if quick else None)]:
                 for style in ("lazy", "eager"):
                     if style == "eager" and ev == "root":
@@ -147,7 +149,8 @@ def binding_menu(out, expr, layouts, loop_ranks, quick):
             continue
         fn = format_name(layouts, out, t)
         rank = lay[-1]
-        evs = [r for r in loop_ranks if r != rank][:1] or ["root"]
+        pos = loop_ranks.index(rank) if rank in loop_ranks else len(loop_ranks)
+        evs = loop_ranks[:pos][:1] or ["root"]
         for s1, s2 in (("lazy", "eager"), ("eager", "lazy")):
             t1 = ["coord", "payload"] if s1 == "lazy" else ["coord"]
             t2 = ["coord", "payload"] if s2 == "lazy" else ["coord"]
@@ -286,7 +289,8 @@ def configs(quick, maxb=None):
             for c in combos:
                 labels = [menu[i][0] for i in c]
                 # two buffer bindings of the same tensor rank are (by the compiler's own rule) multiple bindings
-                if tag == "mm/occ" and any(l.startswith("mrgx") for l in labels) and labels != ["mrgx:A"]:
+                dynamic = "uniform_occupancy" in B.canon((spec.get("mapping") or {}).get("partitioning") or {})
+                if dynamic and any(l.startswith("mrgx") for l in labels) and not (tag == "mm/occ" and labels == ["mrgx:A"]):
                     # a merger whose init-ranks mix ranks across a dynamic partitioning is accepted but emits a dump that reads
                     # a tensor variable that never exists (known finding F16): one specific instance is kept
                     continue
